@@ -135,6 +135,24 @@ def run_main_big(program: str, stdin: str = '', fs=None, format_io: bool = True,
         return {'kind': 'fuel', 'why': 'native stack of the big-step evaluator'}
 
 
+def run_bn(program: str, fuel: int = 4000):
+    """the call-by-name reference semantics on trees (driver command bn): the printed form of the integer / Boolean value of
+    a single-expression program of the fragment, 'fn' for a function value, or None (outside the fragment / out of fuel)"""
+    global _DRV
+    try:
+        out = driver().ask(f"bn {fuel} {hx(program)}")
+    except RuntimeError as e:
+        if 'died' not in str(e):
+            raise
+        try: _DRV.p.kill()
+        except Exception: pass
+        _DRV = None
+        return None
+    if out.startswith('int ') or out.startswith('bool '):
+        return out.split(' ', 1)[1]
+    return 'fn' if out == 'fn' else None
+
+
 def run_cli(program: str, argv, stdin: str = '', fs=None, fuel: int = DEFAULT_FUEL):
     line = f"cli {fuel} {hx(stdin)} {fs_spec(fs)} {hx(program)}" + "".join(" " + hx(a) for a in argv)
     return _parse_outcome(driver().ask(line))
